@@ -31,7 +31,7 @@ def plan(tier, seed):
 
 def required(tier):
     return {"spectrum-equals-counting": 20, "total-equals-usable-snps": 20, "chunks-partition": 10, "chunk-spectra-sum": 10,
-            "bootstrap-is-sum-of-chunks": 10, "subsample-exact-size": 8, "subsample-bootstrap-sizes": 4, "stat-S": 15, "stat-pi": 15, "stat-Watterson": 15,
+            "bootstrap-is-sum-of-chunks": 10, "subsample-exact-size": 8, "subsample-bootstrap-sizes": 4, "subsample-from-distinct-individuals": 8, "stat-S": 15, "stat-pi": 15, "stat-Watterson": 15,
             "stat-TajimaD": 15, "stat-Fst": 10, "stat-theta_L": 15, "pi-projection-invariant": 15, "legacy-format": 5}
 
 
@@ -349,6 +349,24 @@ def run_vcf(spec, rec, dadi):
                 (dup if key in seen else seen).add(key)
             rec.check("subsample-keeps-right-snps", (set(dds) - dup) == (expk - dup), site="Misc.make_data_dict_vcf", tags=tags,
                       observed=sorted((set(dds) ^ expk) - dup)[:5])
+            # the requested number of *individuals*: the stored allele counts must be what k distinct called individuals of that
+            # population can carry (with n0/n1/n2 called individuals carrying 0/1/2 alternative alleles)
+            by_key = {"%s_%d" % (r[0], r[1]): r for r in syn.records}
+            bad = []
+            for key, e in dds.items():
+                if key in dup or key not in by_key:
+                    continue
+                gts = by_key[key][6]
+                for p in syn.pops:
+                    cnt = [0, 0, 0]
+                    for (s_, pp), g in zip(syn.samples, gts):
+                        if pp == p and "." not in g:
+                            cnt[g.count("1")] += 1
+                    k, alt = sub[p], int(e["calls"][p][1])
+                    feas = any(0 <= alt - 2 * k2 <= cnt[1] and 0 <= k - (alt - 2 * k2) - k2 <= cnt[0] for k2 in range(min(cnt[2], k) + 1))
+                    if not feas:
+                        bad.append((key, p, cnt, k, alt))
+            rec.check("subsample-from-distinct-individuals", not bad, site="Misc.make_data_dict_vcf", tags=tags, observed=bad[:3])
         # bootstraps over subsampled individuals: the requested numbers are looked up by population name (the dictionary may list
         # the populations in any order), every SNP is counted at exactly 2*subsample[pop] chromosomes, so each bootstrap has those
         # sample sizes and whole-number entries (halves where folding shares an ambiguous class)
